@@ -121,3 +121,12 @@ claim("C15",
       "related objects (two family shapes), every live object snapshotted around every step; the last result is probed both ways (write into arguments / "
       "receiver, write into the result).",
       NOTE, "Coq proof (object/cell/storage model, separation invariant over histories) + snapshot-all-objects correspondence check", "DESIGN.md 6/C15")
+claim("C08",
+      "Theorems (Props/C08.v), partial by design (the parquet codec is Arrow's: contract): the library's regrouping of partially loaded dotted columns as a "
+      "pure function on the requested names, for EVERY request list: removal of the regrouped leaves by descending position = filtering them out, so the "
+      "result holds exactly the other requested columns in request order followed by one struct per partially loaded nest with its requested leaves in "
+      "request order; collected positions are list-typed leaves of dotted requests of that nest; full + partial of one nest refused; the removal order is "
+      "essential (refuted witness). Correspondence: real files under every writer configuration (row groups, compression, dictionary, path / buffer, "
+      "index kinds), full read by the library and by plain pyarrow (no metadata, struct of equal-length lists, same content), selections with interleaved "
+      "fields of two nests compared with the full read and with the Coq model, reject_nesting, files written by plain pyarrow (well-formed, ragged, non-list leaf).",
+      NOTE, "Coq proof (regrouping index arithmetic) + correspondence check on real parquet files", "DESIGN.md 6/C08")
